@@ -14,6 +14,7 @@ pub(crate) struct MemfsFile {
     pub(crate) data: Vec<u8>,         // datastore for the memory file
     pub(crate) path: Option<PathBuf>, // optional path to write to
     pub(crate) fs: Option<Memfs>,     // optional sharable filesystem for writes
+    pub(crate) append: Option<usize>, // append mode: offset of the data not yet written back
 }
 
 impl MemfsFile {
@@ -32,7 +33,14 @@ impl MemfsFile {
                 let mut guard = fs.write_guard();
                 if guard.contains_entry(path) {
                     if let Some(f) = guard.get_file_mut(path) {
-                        f.data.clone_from(&self.data);
+                        match self.append {
+                            // Append only what hasn't been written back yet
+                            Some(synced) => {
+                                f.data.extend_from_slice(&self.data[synced..]);
+                                self.append = Some(self.data.len());
+                            },
+                            None => f.data.clone_from(&self.data),
+                        }
                     }
                 } else {
                     return Err(io::Error::new(
@@ -53,6 +61,7 @@ impl Clone for MemfsFile {
             data: self.data.clone(),
             path: self.path.clone(),
             fs: self.fs.as_ref().map(|x| x.clone()),
+            append: self.append,
         }
     }
 }
